@@ -123,6 +123,12 @@ def draw_grad_mode(rng: random.Random, d: dict):
     d.pop("grad_mode", None)
     d.pop("sparse_steps", None)
     d.pop("stripe_largest", None)
+    d.pop("zero_steps", None)
+    d.pop("grad_assign", None)
+    if rng.random() < 0.15:
+        d["zero_steps"] = sorted(rng.sample(range(2, 9), rng.choice([1, 2])))      # all gradients present and exactly zero on these steps
+    if rng.random() < 0.12:
+        d["grad_assign"] = "data_swap"          # the .grad object persists, its storage is replaced (p.grad.data = new gradient)
     r = rng.random()
     if r < 0.15:
         d["grad_mode"], d["sparse_steps"] = "sparse_first", rng.choice([1, 2, 3])
